@@ -145,6 +145,50 @@ pub fn insert_markers(m: &mut walrus::Module, seed: u64) -> u64 {
     n
 }
 
+/// A transformation that moves original instructions into sequences it creates: for some block, loop or if arm the
+/// instructions are moved to a new sequence of the same type and every reference to the old sequence (the construct
+/// itself and the branches to it) is redirected. The emitted instructions are the same; the new sequences have no
+/// input location for their `end`.
+pub fn resequence(m: &mut walrus::Module, seed: u64) -> u64 {
+    use walrus::ir::{self, Visitor, VisitorMut};
+    struct Seqs(Vec<ir::InstrSeqId>);
+    impl<'a> Visitor<'a> for Seqs {
+        fn start_instr_seq(&mut self, s: &'a ir::InstrSeq) {
+            self.0.push(s.id());
+        }
+    }
+    struct Redirect(ir::InstrSeqId, ir::InstrSeqId);
+    impl VisitorMut for Redirect {
+        fn visit_instr_seq_id_mut(&mut self, id: &mut ir::InstrSeqId) {
+            if *id == self.0 {
+                *id = self.1;
+            }
+        }
+    }
+    let mut rng = wv_gen::rng::Rng::new(seed ^ 0x5E9);
+    let mut n = 0;
+    for (_, f) in m.funcs.iter_local_mut() {
+        let mut v = Seqs(vec![]);
+        ir::dfs_in_order(&mut v, f, f.entry_block());
+        let entry = f.entry_block();
+        let cands: Vec<ir::InstrSeqId> = v.0.into_iter().filter(|s| *s != entry).collect();
+        if cands.is_empty() || cands.len() > 400 || !rng.chance(2, 3) {
+            continue;
+        }
+        for _ in 0..1 + rng.usize(2) {
+            let old = cands[rng.usize(cands.len())];
+            // (a sequence picked twice is no longer part of the function the second time: nothing happens)
+            let ty = f.block(old).ty;
+            let new = f.builder_mut().dangling_instr_seq(ty).id();
+            let instrs = std::mem::take(&mut f.block_mut(old).instrs);
+            f.block_mut(new).instrs = instrs;
+            ir::dfs_pre_order_mut(&mut Redirect(old, new), f, entry);
+            n += 1;
+        }
+    }
+    n
+}
+
 /// Edit through the public API: an active data segment, an active element segment, exports and a start
 /// function that the input did not have. Returns a description of what was added.
 pub fn add_roots(m: &mut walrus::Module, seed: u64) -> String {
@@ -335,6 +379,12 @@ pub fn run(input: &[u8], scn: &str, rec: &mut Rec) {
             match guarded(|| insert_markers(&mut p.module, wv_gen::rng::fnv64(input))) {
                 Ok(n) => rec.push_n("inserted", n),
                 Err(pan) => rec.push_s("panic.insert", &pan),
+            }
+        }
+        if o.has("reseq") {
+            match guarded(|| resequence(&mut p.module, wv_gen::rng::fnv64(input))) {
+                Ok(n) => rec.push_n("resequenced", n),
+                Err(pan) => rec.push_s("panic.reseq", &pan),
             }
         }
         let pr = if probe { Some(attach_probe(&mut p, None)) } else { None };
